@@ -269,20 +269,21 @@ def is_text_class(name):
     return name.startswith(TEXT_MODULES)
 
 
-def thorough_positions(length, rng, limit=16):
-    """every position of a vector of up to `limit` bytes; of a longer one the first 8 (headers, lengths, types) and
-    8 more drawn with the seed, so that repeated thorough runs with different VERIF_SEED values cover the rest"""
+def thorough_positions(length, rng, limit=12):
+    """every position of a vector of up to `limit` bytes; of a longer one the first 6 (headers, lengths, types) and
+    6 more drawn with the seed, so that repeated thorough runs with different VERIF_SEED values cover the rest"""
     if length <= limit:
         return list(range(length))
-    rest = list(range(8, length))
+    head = limit // 2
+    rest = list(range(head, length))
     rng.shuffle(rest)
-    return sorted(list(range(8)) + rest[:limit - 8])
+    return sorted(list(range(head)) + rest[:limit - head])
 
 
 def window_shards(mode, tier, seed_value, per_seed=2, timeout=15, tag='w'):  # pylint: disable=too-many-arguments,too-many-locals,too-many-branches
     """quick: shortest accepted seed per class, `per_seed` positions (first byte + rotated); binary classes get all
-    256 values of the byte, text classes the ALPHABET of boundary characters.  thorough: up to two seeds per
-    class, thorough_positions() of each, all 256 values, plus two-byte windows on the first two positions."""
+    256 values of the byte, text classes the ALPHABET of boundary characters.  thorough: one seed per class (two when
+    short), thorough_positions() of each, all 256 values, plus two-byte windows on the first two positions."""
     rng = random.Random(seed_value)
     thorough = tier == 'thorough'
     out = []
@@ -300,7 +301,7 @@ def window_shards(mode, tier, seed_value, per_seed=2, timeout=15, tag='w'):  # p
         if mode == 'rt' and not hasattr(cls.parse_exact_size(accepted[0]), 'compose'):
             continue    # code-point factories yield bare enum members; their encoding is C10's subject
         accepted.sort(key=lambda item: (len(item), item))
-        chosen = accepted[:2] if thorough else accepted[:1]
+        chosen = accepted[:2] if (thorough and len(accepted[0]) <= 24) else accepted[:1]
         short = name.replace('cryptoparser.', '')
         text = is_text_class(name)
         for sidx, data in enumerate(chosen):
@@ -322,7 +323,7 @@ def window_shards(mode, tier, seed_value, per_seed=2, timeout=15, tag='w'):  # p
                     bounds='%s of byte %d of an accepted %d-byte vector' % (what, pos, len(data)),
                     group='%s/%s' % (tag, short), twin=(mode != 'c02')))
             if thorough and not text:
-                for pos in range(0, min(len(data) - 1, 2)):
+                for pos in range(0, min(len(data) - 1, 1)):
                     out.append(Shard(
                         MOD, 'window2', '%s2/%s/s%d/p%d' % (tag, short, sidx, pos),
                         {'MODE': mode, 'CLASS': name, 'SEED': data.hex(), 'POS': pos}, timeout=90,
